@@ -27,6 +27,8 @@ type c12Mod struct {
 	file    bool  // served by the simulated file system through FileImporter
 	topDeps []int // imported at the top of the body
 	lazyDep int   // imported inside an exported function (-1: none)
+	lib     bool  // file modules only: lives in the sub directory lib/
+	array   bool  // the module's value is an array [cell, get, inc, depinc, lazy, hinc] instead of a map
 }
 
 func c12ModName(i int, file bool) string {
@@ -36,21 +38,38 @@ func c12ModName(i int, file bool) string {
 	return fmt.Sprintf("m%d", i)
 }
 
-// c12Spell returns one of several equivalent spellings of a file module's name: FileImporter resolves all of them
-// to the same absolute path, so they name the same module.
-func c12Spell(t *sim.Tape, m c12Mod) string {
-	if !m.file || t == nil {
-		return m.name
-	}
-	switch t.Draw(4) {
-	case 1:
-		return "./" + m.name
-	case 2:
-		return "sub/../" + m.name
-	case 3:
-		return "/sim/" + m.name
+// c12Path is the path of a file module relative to the root directory /sim.
+func c12Path(m c12Mod) string {
+	if m.lib {
+		return "lib/" + m.name
 	}
 	return m.name
+}
+
+// c12Spell returns one of several equivalent spellings of a module's name as seen from the importer `from` (nil: the
+// main script in /sim): FileImporter resolves relative names against the directory of the importing file, and all
+// spellings of one file name the same module.
+func c12Spell(t *sim.Tape, from *c12Mod, m c12Mod) string {
+	if !m.file {
+		return m.name
+	}
+	abs := "/sim/" + c12Path(m)
+	if from != nil && !from.file {
+		// a named source module has no directory of its own
+		return abs
+	}
+	d := 0
+	if t != nil {
+		d = t.Draw(5)
+	}
+	if from != nil && from.lib {
+		if m.lib {
+			return []string{m.name, "./" + m.name, "../lib/" + m.name, abs, "././" + m.name}[d]
+		}
+		return []string{"../" + m.name, "../" + m.name, "./../" + m.name, abs, "../lib/../" + m.name}[d]
+	}
+	p := c12Path(m)
+	return []string{p, "./" + p, "sub/../" + p, abs, "././" + p}[d]
 }
 
 func c12Source(t *sim.Tape, mods []c12Mod, i int) string {
@@ -59,45 +78,52 @@ func c12Source(t *sim.Tape, mods []c12Mod, i int) string {
 	sb.WriteString("rec := import(\"rec\")\n")
 	fmt.Fprintf(&sb, "rec.body(%d)\n", i)
 	for _, d := range m.topDeps {
-		fmt.Fprintf(&sb, "d%d := import(%q)\n", d, c12Spell(t, mods[d]))
+		fmt.Fprintf(&sb, "d%d := import(%q)\n", d, c12Spell(t, &m, mods[d]))
 	}
 	fmt.Fprintf(&sb, "rec.mop(%d)\n", i)
 	sb.WriteString("state := {n: 0}\n")
-	sb.WriteString("return {\n\tget: func() { return state.n },\n\tinc: func() { state.n++; return state.n },\n")
+	sb.WriteString("fld := func(m, i, name) { return isArray(m) ? m[i] : m[name] }\n")
+	sb.WriteString("exp := {\n\tcell: [0],\n\tget: func() { return state.n },\n\tinc: func() { state.n++; return state.n },\n")
 	if len(m.topDeps) > 0 {
-		fmt.Fprintf(&sb, "\tdepinc: func() { return d%d.inc() },\n", m.topDeps[0])
+		fmt.Fprintf(&sb, "\tdepinc: func() { return fld(d%d, 2, \"inc\")() },\n", m.topDeps[0])
 	} else {
 		sb.WriteString("\tdepinc: func() { return -1 },\n")
 	}
 	if m.lazyDep >= 0 {
-		fmt.Fprintf(&sb, "\tlazy: func() { x := import(%q); return x.inc() },\n", c12Spell(t, mods[m.lazyDep]))
+		fmt.Fprintf(&sb, "\tlazy: func() { x := import(%q); return fld(x, 2, \"inc\")() },\n", c12Spell(t, &m, mods[m.lazyDep]))
 	} else {
 		sb.WriteString("\tlazy: func() { return -1 },\n")
 	}
 	// the builtin module value is one object per VM, whoever imports it
 	sb.WriteString("\thinc: func() { hh := import(\"host\"); hh.arr[1] += 1; return hh.arr[1] },\n")
 	sb.WriteString("}\n")
+	if m.array {
+		sb.WriteString("return [exp.cell, exp.get, exp.inc, exp.depinc, exp.lazy, exp.hinc]\n")
+	} else {
+		sb.WriteString("return exp\n")
+	}
 	return sb.String()
 }
 
 func c12Driver(t *sim.Tape, mods []c12Mod, steps int, topImports []int, stride int) string {
 	var sb strings.Builder
 	sb.WriteString(sim.Prelude)
+	sb.WriteString("fld := func(m, i, name) { return isArray(m) ? m[i] : m[name] }\n")
 	sb.WriteString("h := import(\"host\")\nh.arr[0] += 1\nh.map.k += 1\nlog(\"h\", h.arr[0], h.map.k)\n")
 	for _, k := range topImports {
 		// an import of the same module earlier in the same function scope that may or may not execute
-		fmt.Fprintf(&sb, "try { if choose(5) > 2 { p%d := import(%q); log(\"pre\", %d, p%d.inc()) } } catch e { log(\"prefail\", %d, e.Message) }\n", k, c12Spell(t, mods[k]), k, k, k)
-		fmt.Fprintf(&sb, "try { t%d := import(%q); log(\"top\", %d, t%d.inc()) } catch e { log(\"topfail\", %d, e.Message) }\n", k, c12Spell(t, mods[k]), k, k, k)
+		fmt.Fprintf(&sb, "try { if choose(5) > 2 { p%d := import(%q); log(\"pre\", %d, fld(p%d, 2, \"inc\")()) } } catch e { log(\"prefail\", %d, e.Message) }\n", k, c12Spell(t, nil, mods[k]), k, k, k)
+		fmt.Fprintf(&sb, "try { t%d := import(%q); log(\"top\", %d, fld(t%d, 2, \"inc\")()) } catch e { log(\"topfail\", %d, e.Message) }\n", k, c12Spell(t, nil, mods[k]), k, k, k)
 	}
 	sb.WriteString("imps := [\n")
 	for _, m := range mods {
-		fmt.Fprintf(&sb, "\tfunc() { return import(%q) },\n", c12Spell(t, m))
+		fmt.Fprintf(&sb, "\tfunc() { return import(%q) },\n", c12Spell(t, nil, m))
 	}
 	sb.WriteString("]\n")
 	fmt.Fprintf(&sb, "for step := 0; step < %d; step++ {\n", steps)
 	fmt.Fprintf(&sb, "\tk := (choose(0) * 4 + choose(1) + step * %d) %% %d\n", stride, len(mods))
 	sb.WriteString("\tvia := choose(2)\n\tact := choose(3)\n\tif choose(4) > 2 { act = act + 4 }\n\ttry {\n\t\tm := undefined\n\t\tif via > 1 { m = call(imps[k]) } else { m = imps[k]() }\n")
-	sb.WriteString("\t\tr := undefined\n\t\tif act == 0 || act == 7 { r = m.inc() } else if act == 1 || act == 6 { r = m.get() } else if act == 2 { r = m.depinc() } else if act == 3 { r = m.lazy() } else if act == 4 { r = m.hinc() } else { h.arr[1] += 1; r = h.arr[1] }\n")
+	sb.WriteString("\t\tr := undefined\n\t\tif act == 0 || act == 7 { r = fld(m, 2, \"inc\")() } else if act == 1 { r = fld(m, 1, \"get\")() } else if act == 6 { c := fld(m, 0, \"cell\"); c[0] += 1; r = c[0] } else if act == 2 { r = fld(m, 3, \"depinc\")() } else if act == 3 { r = fld(m, 4, \"lazy\")() } else if act == 4 { r = fld(m, 5, \"hinc\")() } else { h.arr[1] += 1; r = h.arr[1] }\n")
 	sb.WriteString("\t\tlog(\"step\", k, act, r)\n\t} catch e {\n\t\tlog(\"fail\", k, e.Message)\n\t}\n}\nreturn \"done\"\n")
 	return sb.String()
 }
@@ -116,6 +142,7 @@ type c12Model struct {
 	failMsg string
 	reload  bool // a body started again after a failed attempt
 	hostCnt int  // host.arr[1], one value per VM
+	cell    []int // the array cell inside each module's value (copied once per VM, shared by all importers)
 }
 
 func (m *c12Model) choose(id int) int {
@@ -164,8 +191,11 @@ func (m *c12Model) act(k, act int) (int, bool) {
 	case 0, 7:
 		m.cnt[k]++
 		return m.cnt[k], true
-	case 1, 6:
+	case 1:
 		return m.cnt[k], true
+	case 6:
+		m.cell[k]++
+		return m.cell[k], true
 	case 4, 5:
 		m.hostCnt++
 		return m.hostCnt, true
@@ -263,6 +293,8 @@ func c12Run(rc *sim.RunCtx) {
 		mods[i].file = t.Bool(1, 4)
 		mods[i].name = c12ModName(i, mods[i].file)
 		mods[i].lazyDep = -1
+		mods[i].lib = mods[i].file && t.Bool(1, 2)
+		mods[i].array = t.Bool(1, 3)
 	}
 	// edges only from lower to higher index
 	for i := 0; i < n-1; i++ {
@@ -307,6 +339,17 @@ func c12Run(rc *sim.RunCtx) {
 		}
 		badDesc = fmt.Sprintf("cycle %d→…→%d→%d (length %d)", to, from, to, from-to+1)
 	}
+	failingFile := ""
+	readErrKind := 0
+	if negative == 3 {
+		// one module becomes a file whose read fails
+		k := t.Draw(n)
+		mods[k].file = true
+		mods[k].name = c12ModName(k, true)
+		failingFile = mods[k].name
+		readErrKind = t.Draw(2)
+		badDesc = fmt.Sprintf("reading %s fails (%s)", c12Path(mods[k]), []string{"file does not exist", "read error"}[readErrKind])
+	}
 	sources := map[string]string{}
 	for i := range mods {
 		sources[mods[i].name] = c12Source(t, mods, i)
@@ -316,24 +359,7 @@ func c12Run(rc *sim.RunCtx) {
 		sources[mods[k].name] = strings.Replace(sources[mods[k].name], "rec.mop(", "zz := import(\"nosuchmodule\")\nrec.mop(", 1)
 		badDesc = fmt.Sprintf("module %d imports an unknown module", k)
 	}
-	failingFile := ""
-	readErrKind := 0
-	if negative == 3 {
-		k := t.Draw(n)
-		mods[k].file = true
-		old := mods[k].name
-		mods[k].name = c12ModName(k, true)
-		for nm, src := range sources {
-			sources[nm] = strings.ReplaceAll(src, fmt.Sprintf("%q", old), fmt.Sprintf("%q", mods[k].name))
-		}
-		sources[mods[k].name] = strings.ReplaceAll(c12Source(nil, mods, k), fmt.Sprintf("%q", old), fmt.Sprintf("%q", mods[k].name))
-		if old != mods[k].name {
-			delete(sources, old)
-		}
-		failingFile = mods[k].name
-		readErrKind = t.Draw(2)
-		badDesc = fmt.Sprintf("reading %s fails (%s)", failingFile, []string{"file does not exist", "read error"}[readErrKind])
-	}
+	_ = 0
 	steps := 4 + t.Draw(27)
 	var topImports []int
 	for i := 0; i < n && len(topImports) < 6; i++ {
@@ -370,6 +396,12 @@ func c12Run(rc *sim.RunCtx) {
 	reader := func(path string) ([]byte, error) {
 		reads++
 		name := path[strings.LastIndex(path, "/")+1:]
+		// the file exists only in its own directory
+		for _, m := range mods {
+			if m.file && m.name == name && path != "/sim/"+c12Path(m) {
+				return nil, os.ErrNotExist
+			}
+		}
 		if name == failingFile {
 			rc.Fault("file-read-" + []string{"missing", "error"}[readErrKind])
 			if readErrKind == 0 {
@@ -450,7 +482,7 @@ func c12Run(rc *sim.RunCtx) {
 		rc.Probe("after-encode-decode")
 	}
 
-	model := &c12Model{hostCnt: 2, mods: mods, spec: spec, loaded: make([]bool, n), cnt: make([]int, n), mopOcc: make([]int, n), bodies: make([]int, n), chooseN: map[int]int{}}
+	model := &c12Model{hostCnt: 2, cell: make([]int, n), mods: mods, spec: spec, loaded: make([]bool, n), cnt: make([]int, n), mopOcc: make([]int, n), bodies: make([]int, n), chooseN: map[int]int{}}
 	want := model.run(steps, topImports, stride)
 
 	pool := &sim.SimPool{T: t}
